@@ -65,12 +65,13 @@ AssignActions ==
 AliasActions ==
     \/ \E d \in {"z"}, op \in {"add", "sub", "mul"}, s1 \in {"x"}, s2 \in {"x", "y"} : Arith(d, op, s1, s2)
     \/ \E d \in {"z"}, s \in {"x"} :
-          \/ \E op \in {"copy", "neg", "full_like"} \cup NeutralOps : Unary(d, op, s, <<>>)
+          \/ \E op \in {"copy", "neg", "full_like", "apply_neg"} \cup NeutralOps : Unary(d, op, s, <<>>)
           \/ \E t \in TargetDims(ar[s].dims) : (RootsDistinct(Range(t) \cup Range(ar[s].dims)) /\ Unary(d, "cast_to", s, t))
           \/ \E k \in OrderedSubsets(Range(ar[s].dims)) : Unary(d, "sum_to", s, k)
           \/ \E l \in Range(ar[s].dims) : Unary(d, "cumsum", s, <<l>>)
           \/ \E k \in KeyMenu(ar[s].dims, FALSE) : Read(d, s, k)
     \/ \E r \in {"x", "z"} : Poke(r)
+    \/ \E r \in {"x", "y"} : InPlaceNeg(r)
     \/ PokeDims("z")
     \/ \E l \in {m \in BaseSet : DLen(m) = 2 /\ Defined("x") /\ m \notin Range(ar["x"].dims)} : StackTwo("z", "x", "x", l)
 
